@@ -6,6 +6,7 @@ package vsync
 
 import (
 	"sync"
+	"unsafe"
 
 	"verif.local/engine/vsched"
 )
@@ -30,11 +31,12 @@ func (m *Mutex) Lock() {
 		m.mu.Lock()
 		return
 	}
-	vsched.Block("Mutex.Lock", mutexProbe{m})
+	vsched.BlockObj("Mutex.Lock", mutexProbe{m}, uintptr(unsafe.Pointer(m)), true)
 	if vsched.Exiting() {
 		return
 	}
 	m.held = true
+	vsched.Hold(uintptr(unsafe.Pointer(m)), true)
 	m.mu.Lock()
 }
 
@@ -43,7 +45,7 @@ func (m *Mutex) TryLock() bool {
 	if !vsched.Active() {
 		return m.mu.TryLock()
 	}
-	vsched.Yield("Mutex.TryLock")
+	vsched.YieldObj("Mutex.TryLock", uintptr(unsafe.Pointer(m)), true)
 	if vsched.Exiting() {
 		return true
 	}
@@ -51,6 +53,7 @@ func (m *Mutex) TryLock() bool {
 		return false
 	}
 	m.held = true
+	vsched.Hold(uintptr(unsafe.Pointer(m)), true)
 	m.mu.Lock()
 	return true
 }
@@ -67,6 +70,8 @@ func (m *Mutex) Unlock() {
 	if !m.held {
 		panic("sync: unlock of unlocked mutex")
 	}
+	vsched.Touch(uintptr(unsafe.Pointer(m)), true)
+	vsched.Release(uintptr(unsafe.Pointer(m)))
 	m.held = false
 	m.mu.Unlock()
 }
@@ -95,11 +100,12 @@ func (m *RWMutex) RLock() {
 		m.rw.RLock()
 		return
 	}
-	vsched.Block("RWMutex.RLock", rlockProbe{m})
+	vsched.BlockObj("RWMutex.RLock", rlockProbe{m}, uintptr(unsafe.Pointer(m)), false)
 	if vsched.Exiting() {
 		return
 	}
 	m.readers++
+	vsched.Hold(uintptr(unsafe.Pointer(m)), false)
 	m.rw.RLock()
 }
 
@@ -115,6 +121,8 @@ func (m *RWMutex) RUnlock() {
 	if m.readers <= 0 {
 		panic("sync: RUnlock of unlocked RWMutex")
 	}
+	vsched.Touch(uintptr(unsafe.Pointer(m)), false)
+	vsched.Release(uintptr(unsafe.Pointer(m)))
 	m.readers--
 	m.rw.RUnlock()
 }
@@ -127,19 +135,20 @@ func (m *RWMutex) Lock() {
 	}
 	// The scheduling point comes first: a thread can be preempted just before it calls Lock, when it
 	// has not yet announced itself as a pending writer (which blocks new readers).
-	vsched.Yield("RWMutex.Lock")
+	vsched.YieldObj("RWMutex.Lock", uintptr(unsafe.Pointer(m)), true)
 	if vsched.Exiting() {
 		return
 	}
 	if m.writer || m.readers > 0 {
 		m.pending++
-		vsched.Block("RWMutex.Lock(wait)", wlockProbe{m})
+		vsched.BlockObj("RWMutex.Lock(wait)", wlockProbe{m}, uintptr(unsafe.Pointer(m)), true)
 		if vsched.Exiting() {
 			return
 		}
 		m.pending--
 	}
 	m.writer = true
+	vsched.Hold(uintptr(unsafe.Pointer(m)), true)
 	m.rw.Lock()
 }
 
@@ -155,6 +164,8 @@ func (m *RWMutex) Unlock() {
 	if !m.writer {
 		panic("sync: Unlock of unlocked RWMutex")
 	}
+	vsched.Touch(uintptr(unsafe.Pointer(m)), true)
+	vsched.Release(uintptr(unsafe.Pointer(m)))
 	m.writer = false
 	m.rw.Unlock()
 }
@@ -203,7 +214,7 @@ func (p wgProbe) Ready() bool { return p.w.n == 0 }
 //go:norace
 func (w *WaitGroup) Add(d int) {
 	if vsched.Active() {
-		vsched.Yield("WaitGroup.Add")
+		vsched.YieldObj("WaitGroup.Add", uintptr(unsafe.Pointer(w)), true)
 		w.n += d
 	}
 	w.wg.Add(d)
@@ -218,7 +229,7 @@ func (w *WaitGroup) Wait() {
 		w.wg.Wait()
 		return
 	}
-	vsched.Block("WaitGroup.Wait", wgProbe{w})
+	vsched.BlockObj("WaitGroup.Wait", wgProbe{w}, uintptr(unsafe.Pointer(w)), false)
 	if vsched.Exiting() {
 		return
 	}
@@ -230,27 +241,36 @@ type Map struct{ m sync.Map }
 
 //go:norace
 func (m *Map) Load(k interface{}) (interface{}, bool) {
-	vsched.Yield("Map.Load")
+	vsched.YieldObj("Map.Load", uintptr(unsafe.Pointer(m)), false)
 	return m.m.Load(k)
 }
 
 //go:norace
-func (m *Map) Store(k, v interface{}) { vsched.Yield("Map.Store"); m.m.Store(k, v) }
+func (m *Map) Store(k, v interface{}) {
+	vsched.YieldObj("Map.Store", uintptr(unsafe.Pointer(m)), true)
+	m.m.Store(k, v)
+}
 
 //go:norace
 func (m *Map) LoadOrStore(k, v interface{}) (interface{}, bool) {
-	vsched.Yield("Map.LoadOrStore")
+	vsched.YieldObj("Map.LoadOrStore", uintptr(unsafe.Pointer(m)), true)
 	return m.m.LoadOrStore(k, v)
 }
 
 //go:norace
 func (m *Map) LoadAndDelete(k interface{}) (interface{}, bool) {
-	vsched.Yield("Map.LoadAndDelete")
+	vsched.YieldObj("Map.LoadAndDelete", uintptr(unsafe.Pointer(m)), true)
 	return m.m.LoadAndDelete(k)
 }
 
 //go:norace
-func (m *Map) Delete(k interface{}) { vsched.Yield("Map.Delete"); m.m.Delete(k) }
+func (m *Map) Delete(k interface{}) {
+	vsched.YieldObj("Map.Delete", uintptr(unsafe.Pointer(m)), true)
+	m.m.Delete(k)
+}
 
 //go:norace
-func (m *Map) Range(f func(k, v interface{}) bool) { vsched.Yield("Map.Range"); m.m.Range(f) }
+func (m *Map) Range(f func(k, v interface{}) bool) {
+	vsched.YieldObj("Map.Range", uintptr(unsafe.Pointer(m)), false)
+	m.m.Range(f)
+}
